@@ -722,6 +722,9 @@ type streamWrapper struct {
 	initial  *pubsubpb.StreamingPullRequest
 	closed   chan struct{}
 	receives chan streamReceiveItem
+	// requests split off a client request that used more than one deadline,
+	// only touched from Receive
+	queued []*actions.MessageStreamRequest
 }
 type streamReceiveItem struct {
 	msg *pubsubpb.StreamingPullRequest
@@ -754,6 +757,11 @@ func (w *streamWrapper) Receive(context.Context) (*actions.MessageStreamRequest,
 		ret, err := w.adaptIn(w.initial)
 		w.initial = nil
 		return ret, err
+	}
+	if len(w.queued) != 0 {
+		ret := w.queued[0]
+		w.queued = w.queued[1:]
+		return ret, nil
 	}
 	// we can't interrupt receive without killing the stream, and we can't kill
 	// the stream until we return the final state to the client, so we have to
@@ -831,15 +839,34 @@ func (w *streamWrapper) adaptIn(
 		)
 	}
 	if len(m.ModifyDeadlineAckIds) != 0 {
-		var err error
-		if ret.Delay, err = parse.UUIDsFromStrings(m.ModifyDeadlineAckIds); err != nil {
+		ids, err := parse.UUIDsFromStrings(m.ModifyDeadlineAckIds)
+		if err != nil {
 			return nil, err
 		}
-		// we don't support per-message delay, so take the max delay of the set
-		for _, d := range m.ModifyDeadlineSeconds {
-			df := float64(d)
-			if ret.DelaySeconds < df {
-				ret.DelaySeconds = df
+		// a stream request only carries one delay, so a client request that uses
+		// several deadlines (e.g. zero to nack some messages while extending
+		// others) becomes one request per distinct deadline
+		secs := m.ModifyDeadlineSeconds
+		cur := ret
+		for len(ids) != 0 {
+			d := secs[0]
+			var restIDs []uuid.UUID
+			var restSeconds []int32
+			for i, id := range ids {
+				if secs[i] == d {
+					cur.Delay = append(cur.Delay, id)
+				} else {
+					restIDs = append(restIDs, id)
+					restSeconds = append(restSeconds, secs[i])
+				}
+			}
+			if d > 0 {
+				cur.DelaySeconds = float64(d)
+			}
+			ids, secs = restIDs, restSeconds
+			if len(ids) != 0 {
+				cur = &actions.MessageStreamRequest{}
+				w.queued = append(w.queued, cur)
 			}
 		}
 	}
